@@ -198,13 +198,31 @@ def run(ctx):
                     cfg = {} if default == 'utf-8' else {'default_encoding': default}
                     if value_encoding:
                         cfg['encoding'] = value_encoding
-                    if kind == 'bytes':
+                    if kind == 'bytes' and i % 4 == 1:
+                        # the template object held another document before (of the other kind): write() replaces it, and
+                        # everything - decoding, content type, mode - is decided from the new document alone
+                        ctx.mon('documents-written-over-an-earlier-one')
+                        t = PageTemplate(b'<p checked="${1}">earlier html</p>' if oxml else b'<?xml version="1.0" encoding="latin-1"?>\n<p>earlier xml \xe9</p>', **cfg)
+                        t.write(raw)
+                    elif kind == 'bytes':
                         t = PageTemplate(raw, **cfg)
                     else:
                         fn = os.path.join(tmpd, 't%d.pt' % (i % 7))
                         with open(fn, 'wb') as f:
                             f.write(raw)
-                        t = PageTemplateFile(fn, **cfg)
+                        if i % 4 == 2:
+                            # an auto-reload file template that has rendered another document (of the other kind) before
+                            ctx.mon('documents-written-over-an-earlier-one')
+                            with open(fn, 'wb') as f:
+                                f.write(b'<p checked="${1}">earlier html</p>' if oxml else b'<?xml version="1.0" encoding="latin-1"?>\n<p>earlier xml \xe9</p>')
+                            os.utime(fn, (1_000_000, 1_000_000))
+                            t = PageTemplateFile(fn, auto_reload=True, **cfg)
+                            t(n=5)
+                            with open(fn, 'wb') as f:
+                                f.write(raw)
+                            os.utime(fn, (1_000_050 + i, 1_000_050 + i))
+                        else:
+                            t = PageTemplateFile(fn, **cfg)
                         t.cook_check()
                     got = t(n=5)
                     want_t = PageTemplate(doc, **({'encoding': value_encoding} if value_encoding else {}))
